@@ -69,6 +69,10 @@ func opReplay() error {
 		}
 		nb := len(rp.Out)
 		if err := rp.Run(base+idx, &b); err != nil {
+			if err == errWedged {
+				idx++
+				break // report what was found; nothing more can be asked of this process
+			}
 			return fmt.Errorf("behaviour %d: %v", idx, err)
 		}
 		for _, s := range b.Hist {
